@@ -16,7 +16,7 @@ CHECKS = {
               "dependency map over 3 modules (4 in thorough) with Permutation / DepsFirst / "
               "NoStuck invariants; every dependency map over <=4 modules (self and unknown "
               "dependencies included, 2^20+2^12 maps) and 1/8 of the 2^20 5-module maps "
-              "(all of them, plus 2^25 maps with an unknown name, in thorough) is fed to "
+              "(all of them, plus every 4th of the 2^25 maps with an unknown name, in thorough) is fed to "
               "the real sort_modules and the returned list is validated by TLC as a "
               "behaviour of Pick (trace validation), incl. input-not-mutated."),
         note=("Trusted: the bit-matrix decoding shared by Python and TLA+; dict insertion "
